@@ -238,7 +238,7 @@ func isPlanarOf(what string, g *oracle.G, rep string) (bool, error) {
 	case "sparse":
 		gr = sparseOf(g)
 	default:
-		gr = reps(g)[rep]
+		gr = repOf(g, rep)
 	}
 	var ans bool
 	if p := try(func() { ans = graph.IsPlanar(gr) }); p != nil {
